@@ -13,6 +13,7 @@ import (
 
 	"verif/internal/ev"
 	mcisco "verif/internal/model/cisco"
+	mnsx "verif/internal/model/nsx"
 	"verif/internal/run"
 )
 
@@ -84,7 +85,7 @@ func checkConv(id, typ, tier, replay string) int {
 		}
 	}
 	// Hand-made pairs that once showed a defect, judged by the same monitors.
-	fixed := fixedPairs(typ)
+	fixed := fixedPairs(env, typ)
 	if replay != "" {
 		fixed = nil
 	}
@@ -172,18 +173,129 @@ func writeConvReplay(dir string, g *genCase, o *convOutcome) {
 // convFindingKey refines the class key of a convergence violation with
 // the matchers of triaged findings (see known_findings.json).
 func convFindingKey(typ, key string, g *genCase, o *convOutcome) string {
+	if !strings.Contains(key, ":second-compare-not-clean:") || o.SecondScript == "" {
+		return key
+	}
+	head := key[:strings.Index(key, "second-compare-not-clean:")+len("second-compare-not-clean:")]
+	switch typ {
+	case "asa":
+		// Known limitation: several object-groups with identical members
+		// are in use on the device; the first run keeps them, the next one
+		// consolidates. The situation: the device holds such groups and
+		// every command of the second script deals with one of them.
+		dev, ok := g.model.(*mcisco.Device)
+		if !ok {
+			return key
+		}
+		byContent := map[string][]string{}
+		for _, gr := range dev.Groups {
+			m := append([]string{}, gr.Members...)
+			sort.Strings(m)
+			c := strings.Join(m, "|")
+			byContent[c] = append(byContent[c], gr.Name)
+		}
+		twins := map[string]bool{}
+		for _, l := range byContent {
+			if len(l) > 1 {
+				for _, n := range l {
+					twins[n] = true
+				}
+			}
+		}
+		if len(twins) == 0 {
+			return key
+		}
+		for _, line := range strings.Split(strings.TrimSpace(o.SecondScript), "\n") {
+			hit := false
+			for _, w := range strings.Fields(strings.ReplaceAll(line, "\\N", " ")) {
+				if twins[w] {
+					hit = true
+				}
+			}
+			if !hit {
+				return key
+			}
+		}
+		return head + "identical-groups-in-use-on-device"
+	case "nsx":
+		// Known limitation: the rule sort is not stable for groups that
+		// share their first address.
+		var cfg struct {
+			Groups []struct {
+				Id         string `json:"id"`
+				Expression []struct {
+					IPs []string `json:"ip_addresses"`
+				} `json:"expression"`
+			} `json:"groups"`
+		}
+		first := map[string]int{}
+		for _, text := range []string{g.Files["router"], g.Device} {
+			if json.Unmarshal([]byte(text), &cfg) != nil {
+				continue
+			}
+			seen := map[string]bool{}
+			for _, gr := range cfg.Groups {
+				for _, e := range gr.Expression {
+					if len(e.IPs) > 0 {
+						l := append([]string{}, e.IPs...)
+						sort.Strings(l)
+						if !seen[gr.Id+l[0]] {
+							seen[gr.Id+l[0]] = true
+							first[l[0]]++
+						}
+					}
+				}
+			}
+			for _, n := range first {
+				if n > 1 {
+					return head + "groups-share-first-address"
+				}
+			}
+			first = map[string]int{}
+		}
+	}
 	return key
 }
 
 // fixedPairs: reproducers of repaired defects that the generators reach
 // only rarely, kept as inputs of the convergence monitors.
-func fixedPairs(typ string) []*genCase {
+func fixedPairs(env *run.Env, typ string) []*genCase {
 	mk := func(name, device, target string) *genCase {
 		g := &genCase{Type: typ, Seed: -1, Edits: []string{"repro:" + name}, Device: device,
 			Files: map[string]string{"router": target}}
-		g.model = mcisco.Load(typ, device)
-		g.target = &ciscoTarget{dev: mcisco.Load(typ, target)}
+		switch typ {
+		case "asa", "ios":
+			g.model = mcisco.Load(typ, device)
+			g.target = &ciscoTarget{dev: mcisco.Load(typ, target)}
+		case "nsx":
+			var dc, tc mnsx.Config
+			if json.Unmarshal([]byte(device), &dc) != nil || json.Unmarshal([]byte(target), &tc) != nil {
+				return nil
+			}
+			g.model, g.target = mnsx.NewStore(&dc), &tc
+		default:
+			return nil
+		}
 		return g
+	}
+	// Pairs kept as files: /verif/fixed/<type>/<name>/{device,router}
+	// (inputs on which a thorough run showed a known limitation; they
+	// keep its class key exercised at every seed).
+	var fromFiles []*genCase
+	dirs, _ := filepath.Glob(filepath.Join(env.Verif, "fixed", typ, "*"))
+	sort.Strings(dirs)
+	for _, d := range dirs {
+		dev, err1 := os.ReadFile(filepath.Join(d, "device"))
+		tgt, err2 := os.ReadFile(filepath.Join(d, "router"))
+		if err1 != nil || err2 != nil {
+			continue
+		}
+		if g := mk(filepath.Base(d), string(dev), string(tgt)); g != nil {
+			fromFiles = append(fromFiles, g)
+		}
+	}
+	if typ != "ios" {
+		return fromFiles
 	}
 	switch typ {
 	case "ios":
